@@ -953,6 +953,22 @@ class ConvertInstance:
 
             return obj
 
+        def check_used_object(obj):
+            # check the object and temporaries that
+            # are used as index or slice bound of the object
+            if isinstance(obj, _type_qualifier.TypeQualifier):
+                for ref in obj._ref_spec:
+                    if isinstance(ref, _type_qualifier.Offset):
+                        bounds = [ref.offset]
+                    else:
+                        bounds = [ref.start, ref.stop]
+
+                    for bound in bounds:
+                        if isinstance(bound, _type_qualifier.TypeQualifier):
+                            check_used_temporaries(bound, AccessFlags.READ)
+
+            check_used_temporaries(obj, AccessFlags.READ)
+
         def search_invalid_temporaries(code: ir.CodeBlock):
             nonlocal invalid_temporaries
 
@@ -960,7 +976,7 @@ class ConvertInstance:
 
             for stmt in code._content:
                 if isinstance(stmt, ir.If):
-                    check_used_temporaries(stmt._test, AccessFlags.READ)
+                    check_used_object(stmt._test)
 
                     # Find all temporaries defined in body and mark them
                     # as invalid because they might not be defined
@@ -982,7 +998,7 @@ class ConvertInstance:
                 elif isinstance(stmt, ir.CodeBlock):
                     local_temporaries |= search_invalid_temporaries(stmt)
                 elif isinstance(stmt, ir.CaseWhen):
-                    check_used_temporaries(stmt._value, AccessFlags.READ)
+                    check_used_object(stmt._value)
 
                     always_defined = None
 
